@@ -41,7 +41,7 @@ func genC09(r *core.Rng, id int) *Case {
 	// valid, non-clashing options only: the whole program must be rejected (or wrongly
 	// accepted) because of THAT clash, not because of some other one converted earlier
 	fam := id % 10
-	targeted := fam == 1 || fam == 2 || fam == 4 || fam == 5 || fam == 6 || fam == 9
+	targeted := fam == 1 || fam == 2 || fam == 4 || fam == 5 || fam == 6 || fam == 8 || fam == 9
 	if targeted {
 		gen.DecorateSafe(r, s, d, 0.2)
 	} else {
@@ -75,6 +75,11 @@ func genC09(r *core.Rng, id int) *Case {
 	}
 	if fam == 5 {
 		if e := gen.EnclosingTypenameOp(s, "E"); e != nil {
+			defs = append(defs, e)
+		}
+	}
+	if fam == 8 {
+		if e := gen.TripleTypenameOp(s, "T3"); e != nil {
 			defs = append(defs, e)
 		}
 	}
